@@ -1,20 +1,57 @@
-(* C14.  Property theorems only. *)
-From Coq Require Import List ZArith Bool.
-From BlackIt Require Import Model.Calibrator Proofs.CalibratorP.
+(* C14 — early stopping happens exactly when the best loss rounds to zero.  Property theorems only. *)
+From Coq Require Import List ZArith Bool Arith.
+From BlackIt Require Import Model.Calibrator Proofs.CalibratorP Proofs.CalibStopP Proofs.CalibFlagsP.
 Import ListNotations.
 
-Theorem C14_placeholder_one_batch_designated :
-  forall Param Series LossV model lossf loss_leb rounds0 propose draws agent_actions plan,
-  (forall s ps ls, length (propose s ps ls) = s_bsize s) ->
-  forall s s' o,
+(* The batch loop of calibrate(n): either all n batches run and the test (smallest loss so far rounds to zero at p) was
+   false after each; or it stops after batch k+1 <= n, the test being false after each of the first k and true after
+   batch k+1 — "immediately after the first batch at which ..., and not before". *)
+Theorem C14_stops_at_first_zero :
+  forall Param Series LossV model lossf loss_leb rounds0 propose draws agent_actions plan n s s' o,
+  batches Param Series LossV model lossf loss_leb rounds0 propose draws agent_actions plan n s = (s', o) ->
+    match o with
+    | Done => batch_idx _ _ _ (live _ _ _ s') = batch_idx _ _ _ (live _ _ _ s) + n /\
+              (0 < n -> conv_test _ _ _ loss_leb rounds0 (live _ _ _ s') = Some false)
+    | Converged => exists k s1, k < n /\
+              steps Param Series LossV model lossf loss_leb rounds0 propose draws agent_actions plan k s s1 /\
+              (0 < k -> conv_test _ _ _ loss_leb rounds0 (live _ _ _ s1) = Some false) /\
+              batch_idx _ _ _ (live _ _ _ s') = batch_idx _ _ _ (live _ _ _ s) + S k /\
+              conv_test _ _ _ loss_leb rounds0 (live _ _ _ s') = Some true
+    | Raised _ => True
+    end.
+Proof. exact stops_at_first_zero. Qed.
+Print Assumptions C14_stops_at_first_zero.
+
+Theorem C14_every_step_not_converged :
+  forall Param Series LossV model lossf loss_leb rounds0 propose draws agent_actions plan k s s',
+  steps Param Series LossV model lossf loss_leb rounds0 propose draws agent_actions plan k s s' ->
+    batch_idx _ _ _ (live _ _ _ s') = batch_idx _ _ _ (live _ _ _ s) + k /\
+    (0 < k -> conv_test _ _ _ loss_leb rounds0 (live _ _ _ s') = Some false).
+Proof. exact steps_facts. Qed.
+Print Assumptions C14_every_step_not_converged.
+
+Theorem C14_no_prec_runs_all :
+  forall Param Series LossV model lossf loss_leb rounds0 propose draws agent_actions plan n s s',
+  c_prec (cfg _ _ _ (live _ _ _ s)) = None ->
+  batches Param Series LossV model lossf loss_leb rounds0 propose draws agent_actions plan n s <> (s', Converged).
+Proof. exact no_prec_runs_all. Qed.
+Print Assumptions C14_no_prec_runs_all.
+
+(* The stop does not depend on verbosity (nor on the folder): same live state, same outcome, same returned pairs. *)
+Theorem C14_stop_independent_of_verbose :
+  forall Param Series LossV model lossf loss_leb rounds0 propose draws agent_actions plan v sv n c d d' s1 e r,
+  is_rr _ _ _ c ->
+  calibrate Param Series LossV model lossf loss_leb rounds0 propose draws agent_actions plan n (mkSt _ _ _ c d) = (s1, e, r) ->
+  exists d1', calibrate Param Series LossV model lossf loss_leb rounds0 propose draws agent_actions plan n
+                (mkSt _ _ _ (reflag _ _ _ v sv c) d') = (mkSt _ _ _ (reflag _ _ _ v sv (live _ _ _ s1)) d1', e, r).
+Proof. exact calibrate_noninterference. Qed.
+Print Assumptions C14_stop_independent_of_verbose.
+
+(* The triggering batch (like every completed batch) is in the checkpoint. *)
+Theorem C14_trigger_batch_in_checkpoint :
+  forall Param Series LossV model lossf loss_leb rounds0 propose draws agent_actions plan s s' o l b,
   one_batch Param Series LossV model lossf loss_leb rounds0 propose draws agent_actions plan s = (s', o) ->
-    (exists e, o = Raised e /\ records _ _ _ (live _ _ _ s') = records _ _ _ (live _ _ _ s) /\ disk _ _ _ s' = disk _ _ _ s /\
-               cfg _ _ _ (live _ _ _ s') = cfg _ _ _ (live _ _ _ s) /\ tbl _ _ _ (live _ _ _ s') = tbl _ _ _ (live _ _ _ s) /\
-               e <> ExValue) \/
-    (exists i sc1 m, next_sampler LossV agent_actions (sch _ _ _ (live _ _ _ s)) = Some (i, sc1) /\
-        nth_error (sched_samplers _ sc1) i = Some m /\
-        appended_batch _ _ _ model lossf draws (live _ _ _ s) (live _ _ _ s') m /\
-        (o = Done \/ o = Converged \/ o = Raised ExValue \/ o = Raised ExOther) /\
-        (disk _ _ _ s' = disk _ _ _ s \/ disk _ _ _ s' = Some (live _ _ _ s'))).
-Proof. exact one_batch_cases. Qed.
-Print Assumptions C14_placeholder_one_batch_designated.
+  (o = Done \/ o = Converged) -> c_saving (cfg _ _ _ (live _ _ _ s)) = true -> sch _ _ _ (live _ _ _ s) = RR LossV l b ->
+  disk _ _ _ s' = Some (live _ _ _ s').
+Proof. exact trigger_batch_in_checkpoint. Qed.
+Print Assumptions C14_trigger_batch_in_checkpoint.
